@@ -323,7 +323,8 @@ def run_case(case, rec, ssj=None, cache=None):
         else:
             m = rng.choice(RATIO3)
             t = gen.random_threshold(rng)
-            fspec = {'kind': rng.choice(SAFE_FILTERS), 'measure': m, 'threshold': t}
+            fspec = {'kind': rng.choice(SAFE_FILTERS), 'measure': m, 'threshold': t,
+                     'measure_spelling': gen.spell(rng, m)}
             req = required_pairs(view, m, t)
         fspec['allow_empty'] = rng.random() < 0.6
         fspec['allow_missing'] = rng.random() < 0.3
